@@ -893,9 +893,20 @@ def no_group_relation(snap):
 
 def twin_trigger(trace, upto, c=None):
     """Trigger class of the value-equal-twin defect: the listing of a circuit x was read (any observation that lists x: it hands
-    x's relation object to its relation-less entries) while x contained a block that then equals x by value (same repetition
-    term, no relation of its own), and afterwards x was copied (nested somewhere, copied, or unrolled)."""
+    x's relation object to its relation-less entries) while x contained a block without a relation of its own, and afterwards x
+    was copied (nested somewhere, copied, or unrolled) at a moment when that block equals x by value (same repetition term --
+    unrolling resets the terms to 1, which can make them equal after the read)."""
     comps = {}                       # id -> [rep term, has own relation, home]
+    read = {}                        # x -> relation-less blocks that were inside x when its listing was read
+
+    def inside(i, x):
+        seen = 0
+        while i and seen < 1000:
+            i = comps.get(i, [None, None, ''])[2]
+            seen += 1
+            if i == x:
+                return True
+        return False
     for k, e in enumerate(trace[:upto]):
         ev = e['ev']
         if ev == 'NewCircuit':
@@ -910,69 +921,12 @@ def twin_trigger(trace, upto, c=None):
                 comps[e['id']][1] = e['after']['k'] != 'none'
         elif ev == 'Obs':
             x = e['c']
-
-            def inside(i):
-                seen = 0
-                while i and seen < 1000:
-                    i = comps.get(i, [None, None, ''])[2]
-                    seen += 1
-                    if i == x:
-                        return True
-                return False
-            twins = x in comps and not comps[x][1] and any(i != x and inside(i) and not v[1] and v[0] == comps[x][0] for i, v in comps.items())
-            if twins and any((y['ev'] == 'Apply' and y['c'] == x) or (y['ev'] in ('AddSub', 'CopyCirc') and y.get('s') == x) for y in trace[k:upto]):
+            if x in comps and not comps[x][1]:
+                read.setdefault(x, set()).update(i for i, v in comps.items() if i != x and inside(i, x) and not v[1])
+        if (ev == 'Apply') or (ev in ('AddSub', 'CopyCirc') and e.get('s')):
+            x = e['c'] if ev == 'Apply' else e['s']
+            if x in read and x in comps and any(i in comps and inside(i, x) and comps[i][0] == comps[x][0] for i in read[x]):
                 return True
-    return False
-
-
-def sibling_twins(trace, upto):
-    """Trigger class of the value-equal SIBLING blocks defect (same root cause as twin_trigger: blocks compare by value):
-    two blocks next to each other in one block, both without a relation of their own and with equal repetition terms, were
-    listed through an enclosing circuit (reading the listing hands both the same relation object, after which they are equal
-    keys in the copy lookup -- and so are their copies, whose relations are copies of that one object), and afterwards a
-    structure containing them was copied (nested, copied or unrolled).  Returns the set of such twin blocks: the ones listed,
-    plus their images under every later copy."""
-    comps, hot, out = {}, set(), set()
-
-    def inside(i, x):
-        seen = 0
-        while i and seen < 1000:
-            if i == x:
-                return True
-            i = comps.get(i, [None, None, ''])[2]
-            seen += 1
-        return False
-    for k, e in enumerate(trace[:upto]):
-        ev = e['ev']
-        if ev == 'NewCircuit':
-            comps[e['c']] = [e['rep'], e['link']['k'] != 'none', '']
-        elif ev in ('AddSub', 'CopyCirc', 'Adopt'):
-            for i, r in (e.get('recs') or {}).items():
-                if r.get('t') == 'comp':
-                    home = (e.get('tree') or {}).get(i, {}).get('home', '')
-                    comps[i] = [r['rep'], (e.get('links') or {}).get(i, {'k': 'none'})['k'] != 'none', home]
-            if ev == 'AddSub' and e['id'] in comps:
-                comps[e['id']][2] = e['c']
-                comps[e['id']][1] = e['after']['k'] != 'none'
-        if ev == 'Obs' and not e.get('final'):
-            x = e['c']
-            for i, v in comps.items():
-                for j, w in comps.items():
-                    if i != j and v[2] and v[2] == w[2] and not v[1] and not w[1] and v[0] == w[0] and inside(v[2], x):
-                        hot.add(i)
-        if ev == 'Apply' or (ev in ('AddSub', 'CopyCirc') and e.get('s')):
-            src = e['c'] if ev == 'Apply' else e['s']
-            copied = set(i for i in hot if inside(i, src))
-            if copied:
-                out |= copied
-                for pair in (e.get('cmap') or []):
-                    if pair[1] in copied:
-                        hot.add(pair[0])
-                        out.add(pair[0])
-                for n in (e.get('new') or []):
-                    if n.get('origin') in copied or n.get('from') in copied:
-                        hot.add(n['id'])
-                        out.add(n['id'])
         if ev == 'Apply':
             tree = e.get('tree') or {}
             for n in (e.get('new') or []):
@@ -982,7 +936,7 @@ def sibling_twins(trace, upto):
             for i in tree:
                 if i in comps:
                     comps[i][0] = ['fixed', 1]
-    return out
+    return False
 
 
 def dangling_group_after_flatten(trace, upto):
